@@ -477,7 +477,7 @@ def conc_native(buildname, seed, nshards, progs, reps, label, kind="native", env
     for s in range(nshards):
         # buffer-address parity per shard (ledger builds: ledger placement; ASan/TSan builds: the stateless shifting
         # allocator), so that the PROMOTABLE_ODD representation is raced natively too
-        argv = [exe, "stress", "--seed", str(seed), "--shard", str(s), "--nshards", str(nshards), "--progs", str(progs), "--reps", str(reps), "--parity", ["mixed", "odd", "even"][s % 3]] + (extra or [])
+        argv = [exe, "stress", "--seed", str(seed), "--shard", str(s), "--nshards", str(nshards), "--progs", str(progs), "--reps", str(reps), "--parity", ["mixed", "odd", "even"][s % 3], "--directed"] + (extra or [])
         jobs.append(Job(f"{label}:{s}", argv, env=env, kind=kind, build=buildname, crash="violation", timeout=2400))
     return jobs
 
@@ -493,7 +493,7 @@ def conc_miri(seed, njobs, progs, seeds, label, cfg=True, leaks=True, extra_flag
 
 CONC_RULE = ("programs = a shared-storage setup (unpromoted Vec-backed Bytes cloned through one &Bytes, promoted, Vec-with-spare shared, frozen BytesMut, owner whose Drop writes its buffer, BytesMut halves, frozen head + BytesMut tail; with or without a handle lent by the main thread) "
              "x 2-3 threads x 1-4 ops from {clone via &Bytes, clone own, read, slice, drop, try_into_mut, into Vec, into BytesMut, truncate, advance, reserve, try_reclaim, freeze, BytesMut into Vec}; every thread checks bytes and addresses, exclusive owners overwrite everything they own and keep it until join; "
-             "post-join trace check: at most one zero-copy exclusive owner, exclusive regions pairwise disjoint, ledger balance 0 and no ledger violation. The crate's H1 hook logs (thread, point) with Relaxed atomics and injects seeded spins/yields between the crate's atomic steps. "
+             "post-join trace check: at most one zero-copy exclusive owner, exclusive regions pairwise disjoint, ledger balance 0 and no ledger violation. The crate's H1 hook logs (thread, point) with Relaxed atomics and injects seeded spins/yields between the crate's atomic steps; after the randomly delayed repetitions every program is also run once per (thread, hook event) placement with that thread held at that event until all other threads have finished (all single-preemption schedules at the hooked atomic steps). "
              "A cell = a distinct program, or a distinct (program, ordered hook-event sequence) interleaving signature.")
 
 TSAN_ENV = {"TSAN_OPTIONS": "halt_on_error=0:report_signal_unsafe=0:history_size=4"}
